@@ -227,11 +227,12 @@ func (m *Machine) doAssert(fr *frame, c value, label string) {
 		// concrete failure under the current path condition
 		st := "unknown"
 		var model map[string]any
-		if m.solver.Check() == Sat {
+		if m.checkRefined() == Sat { // model validated against the native evaluators of the UFs (refine_agentC.go)
 			if mm, _, ok := m.modelOfInputs(); ok {
 				st, model = "violated", mm
 			}
 		}
+		m.flushRefinements()
 		m.res.Asserts = append(m.res.Asserts, AssertResult{Label: label, Status: st, Model: model, Pos: pos})
 		panic(pathEnd{"assert-stop"})
 	case *Term:
@@ -239,12 +240,13 @@ func (m *Machine) doAssert(fr *frame, c value, label string) {
 		m.solver.declare(neg)
 		m.solver.Push()
 		m.solver.send("(assert " + neg.String() + ")")
-		r := m.solver.Check()
+		r := m.checkRefined(neg) // sat models are validated against the native evaluators of the UFs (refine_agentC.go)
 		var model map[string]any
 		if r == Sat {
 			model, _, _ = m.modelOfInputs()
 		}
 		m.solver.Pop()
+		m.flushRefinements()
 		if r == Unsat && !m.crossUnsat(neg) {
 			m.ex.noteUnknown("solver-disagreement(assert:" + label + ")")
 			r = Unknown
